@@ -694,8 +694,8 @@ class Interp:
         self.ctx.mono_needed = getattr(self.ctx, "mono_needed", [])
         # the characterisation is only assumed together with an obligation that the array is strictly increasing
         jj = self.ctx.fresh("jm", "Int")
-        self.ctx.oblige("count_mask_sorted", z3.Implies(z3.And(jj >= 0, jj < z(n) - 1), z3.Select(rec.term, jj) < z3.Select(rec.term, jj + 1)),
-                        st, node, "", (), note="prefix/suffix characterisation of a mask count needs a strictly increasing array")
+        self.ctx.oblige("count_mask_sorted", z3.Implies(z3.And(jj >= 0, jj < z(n) - 1), z3.Select(rec.term, jj) <= z3.Select(rec.term, jj + 1)),
+                        st, node, "", (), note="prefix/suffix characterisation of a mask count needs a non-decreasing array")
         st.pc.append(shape)
         return c
 
